@@ -76,7 +76,8 @@ func build(prop string, race bool) (string, error) {
 		h := sha256.Sum256([]byte(r))
 		suffix = "-alt" + hex.EncodeToString(h[:3])
 	}
-	out := filepath.Join(verifDir, "bin", "worker-"+prop+suffix)
+	// concurrent sweeps (VERIF_WORK_SUFFIX) get their own binary so that a rebuild never replaces a running one
+	out := filepath.Join(verifDir, "bin", "worker-"+prop+suffix+os.Getenv("VERIF_WORK_SUFFIX"))
 	args := []string{"build", "-tags", "verif"}
 	if race {
 		out += "-race"
@@ -596,6 +597,9 @@ func main() {
 	if r := os.Getenv("VERIF_REPO"); r != "" && r != "/repo" {
 		// mutation check against a scratch copy: never touch the committed evidence
 		evPath = filepath.Join(work, "evidence-"+prop+".json")
+	} else if d := os.Getenv("VERIF_EVIDENCE_DIR"); d != "" {
+		// background sweeps (other seeds / tiers) keep their evidence apart
+		evPath = filepath.Join(d, prop+".json")
 	}
 	os.MkdirAll(filepath.Dir(evPath), 0o755)
 	bad := ""
